@@ -73,3 +73,12 @@ Proof.
   assert (H : names_ok (doc_root true)) by (vm_compute; repeat (split || constructor)).
   split; [exact H|]. apply reads_back. exact H.
 Qed.
+
+(* declared types vs. accepted / sent types on a concrete method and signal *)
+Example ex_types :
+  let m := mk (B "MTwo") [(B "a0", TU); (B "a1", TS)] (OTuple [TS; TU]) false false in
+  arg_types (Some (B "in")) (method_elem m) = [B "u"; B "s"] /\
+  arg_types (Some (B "out")) (method_elem m) = [B "s"; B "u"] /\
+  args_ok m [VU 1; VS (B "x")] = true /\ args_ok m [VS (B "x"); VU 1] = false /\ args_ok m [VU 1] = false /\
+  map vsig (wire_out (md_out m) [VS (B "r"); VU 2]) = [B "s"; B "u"].
+Proof. cbn zeta. repeat split; reflexivity. Qed.
